@@ -299,7 +299,9 @@ func scenarios(o *common.Opts) []*callsim.Scenario {
 	// keep-alive: doKeepAlive takes and releases a queueLen slot of the proxy on every tick. With a small
 	// ObjQueueMax and calls that keep the queue full over several ticks, the proxy's counter must be back at 0
 	// after the calls (also a few ticks later) and a burst of ObjQueueMax calls must be admitted.
-	for _, ka := range []string{"push", "interval"} {
+	// (the keep-alive-interval path runs only for registry-managed endpoint managers — checkEpStatus skips
+	// direct proxies — and calls the same doKeepAlive; it is not exercised here)
+	for _, ka := range []string{"push"} {
 		const qmax = 2
 		cl := callsim.ClientConf{ObjQueueMax: qmax, WriteTimeoutMs: -1, DialTimeoutMs: 400, ProxyTimeoutMs: 2500}
 		hold := 400
@@ -440,6 +442,18 @@ func main() {
 		if o.Replay != "" {
 			b, _ := json.MarshalIndent(r, "", " ")
 			fmt.Println("impl result:", string(b))
+		}
+		if sc.Class == "keepalive" {
+			pings := 0
+			for _, q := range r.Reqs {
+				if q.Type == 1 && q.Tag < 0 {
+					pings++
+				}
+			}
+			if pings == 0 {
+				res.Fatal(o.Out, fmt.Errorf("scenario %s: no keep-alive ping reached the server: the keep-alive path was not exercised", sc.Name))
+			}
+			res.Histogram["keepalive-pings-seen"] += pings
 		}
 		if sc.Force != "" {
 			if r.ForceHeld == 0 {
